@@ -33,7 +33,7 @@ char g_raw[4096]; unsigned g_ntok; unsigned g_off[NTOK + 1]; unsigned short g_ta
 /* ---- ghost: what the decoder did ---- */
 int g_nadded; unsigned short g_added_tag[NTOK + 1]; unsigned g_added_pos[NTOK + 1]; int g_added_from[NTOK + 1];
 unsigned g_unk_calls; unsigned g_unk_lo, g_unk_hi; _Bool g_unk_contiguous;              /* _unknown.append calls: lowest start / highest end offset appended */
-int g_group_calls;
+int g_group_calls, g_fixed_calls;
 struct bf_m g_bf[NTOK + 1]; int g_nbf;
 /* ---- ASSUMED models ---- */
 unsigned long sv_size(const struct sv_m *s) { return s->size; }
@@ -63,7 +63,13 @@ void mb_add_field_decoder(struct FIX8_MessageBase *self, unsigned short fnum, un
 { __CPROVER_assume(g_nadded <= NTOK); g_added_tag[g_nadded] = fnum; g_added_pos[g_nadded] = pos; g_added_from[g_nadded] = what->tag == fnum ? what->from_token : -2; g_nadded++; }
 _Bool mb_has_group_count(const struct bf_m *bf) { return nondet_bool(); }
 unsigned mb_decode_group(struct FIX8_MessageBase *self, void *grpbase, unsigned short fnum, const struct sv_m *from, unsigned s_offset, unsigned ignore) { g_group_calls++; return s_offset; }
-unsigned tok_extract_fixed(const char *from, unsigned sz, unsigned val_sz, char *tag, char *val) { return 0; }
+unsigned tok_extract_fixed(const char *from, unsigned sz, unsigned val_sz, char *tag, char *val)
+{
+  /* K-tok: extract_element_fixed_width copies val_sz bytes and a terminator into val, and the tag digits into tag, without a limit of its own */
+  __CPROVER_assert((unsigned long)val_sz + 1 <= __CPROVER_OBJECT_SIZE(val) - __CPROVER_POINTER_OFFSET(val), "C03.decode.data_value_buffer_holds_the_declared_length_and_its_terminator");
+  g_fixed_calls++;
+  return 0;
+}
 void unk_append(struct sv_m *u, const char *p, unsigned long n)
 {
   unsigned lo = (unsigned)(p - g_raw), hi = lo + (unsigned)n;
@@ -112,6 +118,16 @@ void h_part_strict(void)
     __CPROVER_assert(pres_find_missing(&m._fp, K_mandatory) == 0, "C04.part.strict.no_mandatory_field_missing_on_return");
     __CPROVER_assert(g_unk_calls == 0, "C04.part.strict.nothing_kept_as_unknown");
   }
+  VACUITY_PROBE();
+}
+/* a Length field followed by its data field: the declared length is bounded by what the value buffer holds */
+void h_part_length(void)
+{
+  struct sv_m from; mk_text(&from); struct FIX8_MessageBase m; mk_part(&m);
+  __CPROVER_assume(m._fp.n >= 1 && g_ntok >= 1 && g_tag[0] == m._fp.arr[0]._fnum && m._fp.arr[0]._fnum != 9);
+  m._fp.arr[0]._ftype = K_ft_Length; g_fixed_calls = 0;
+  unsigned r = mb_decode(&m, &from, g_off[0], 0, nondet_bool());
+  __CPROVER_assert(__exc || g_fixed_calls <= 1, "C03.decode.at_most_one_data_field_follows_a_length_field");
   VACUITY_PROBE();
 }
 /* permissive mode, one part */
@@ -168,6 +184,7 @@ UNIT = dict(
     postlude=POST,
     proofs=[
         dict(name='part_strict', harness='h_part_strict', properties=['C04'], solvers=['cadical', 'z3'], timeout=dict(quick=600, thorough=1800), floor=6, level='bounded', unwind=5, object_bits=10),
+        dict(name='part_length', harness='h_part_length', properties=['C03', 'C06'], solvers=['cadical', 'z3'], timeout=dict(quick=600, thorough=1800), floor=1, level='bounded', unwind=5, object_bits=10),
         dict(name='part_permissive', harness='h_part_permissive', properties=['C05'], solvers=['cadical', 'z3'], timeout=dict(quick=600, thorough=1800), floor=3, level='bounded', unwind=5, object_bits=10),
     ],
     trusted_base=['ASSUMED: the tokeniser hands out the ghost tokens (its safety is K-tok\'s subject); Presence::find / end, trait bit operations, F8MetaCntx::find_be, the field instantiator, '
